@@ -8,6 +8,8 @@ import (
 var checks = map[string]func(*Report){
 	"C01": runC01,
 	"C03": runC03,
+	"C04": runC04,
+	"C05": runC05,
 	"C11": runC11,
 	"C14": runC14,
 	"C15": runC15,
